@@ -357,6 +357,13 @@ Proof.
   - destruct fixed; simpl; auto. destruct (cs_condvar st); simpl; auto.
 Qed.
 
+Lemma cond_py_statement_progress : forall lines i line raw,
+  1 <= snd (cond_py_statement fixed lf lines i line raw).
+Proof.
+  intros. unfold cond_py_statement.
+  destruct (fixed && (1 <? snd (py_statement lf lines i raw))); cbn [snd]; unfold py_statement; apply Hemx.
+Qed.
+
 Section Bodies.
 Variable rec_cond rec_loop : list string -> nat -> pres (token * nat).
 
@@ -385,9 +392,7 @@ Proof.
   { apply stepok_bind; [apply flush_cur_allowed|]. intros; apply stepok_next1. }
   destruct (startswith (strip line) "~ " && has_cur st).
   { apply stepok_bind; [apply flush_cur_allowed|]. intros st1 _. split; [exact I|].
-    intros st' k E. inversion E; subst. unfold cond_py_statement.
-    destruct (fixed && (1 <? snd (py_statement lf lines i (drop 2 (strip line))))); cbn [snd];
-      unfold py_statement; apply Hemx. }
+    intros st' k E. injection E as E1 E2. rewrite <- E2. apply cond_py_statement_progress. }
   destruct (is_if_line (strip line) && negb (i =? start) && has_cur st) eqn:Eif.
   { apply andb_prop in Eif. destruct Eif as [Eif _]. apply andb_prop in Eif. destruct Eif as [_ Ene].
     apply negb_true_iff in Ene. apply Nat.eqb_neq in Ene. destruct (Hc Ene) as [A P].
